@@ -35,6 +35,9 @@ type c11Case struct {
 	B              c811Trace `json:"b"` // second trace (an edit of A, or independent) for the separation part
 	PermSeed       uint64    `json:"perm_seed"`
 	Dups           []int     `json:"dups,omitempty"` // indices (mod len) of spans of A to duplicate
+	// GrowAt k (0 < k < len(A.spans)): the same trace object is keyed when it holds the first k spans of A,
+	// then the remaining spans arrive and it is keyed again; that key must be the key of a freshly assembled A.
+	GrowAt int `json:"grow_at,omitempty"`
 	// Freq: run the keep-frequency sub-check: feed A x FeedA and B x FeedB, let one
 	// adjustment interval pass (virtual time), then decide A and B c11FreqN times each.
 	Freq  bool `json:"freq,omitempty"`
@@ -150,6 +153,13 @@ func genC11Span(t *rapid.T) c811Span {
 			s[f] = genC11Val(t)
 		}
 	}
+	// span events and span links are members of the trace like any other span
+	switch rapid.IntRange(0, 9).Draw(t, "annotation") {
+	case 8:
+		s[c811Annotation] = c811S("span_event")
+	case 9:
+		s[c811Annotation] = c811S("link")
+	}
 	return s
 }
 
@@ -232,6 +242,9 @@ func genC11(t *rapid.T) c11Case {
 		}
 	}
 	c.PermSeed = rapid.Uint64().Draw(t, "permseed")
+	if len(c.A.Spans) >= 2 && rapid.Bool().Draw(t, "grow") {
+		c.GrowAt = rapid.IntRange(1, len(c.A.Spans)-1).Draw(t, "growat")
+	}
 	c.Dups = rapid.SliceOfN(rapid.IntRange(0, 7), 0, 3).Draw(t, "dups")
 	if rapid.IntRange(0, 15).Draw(t, "freq") == 13 { // not the shrink target: minimal cases skip the expensive sub-run
 		c.Freq = true
@@ -553,7 +566,8 @@ func execC11(c c11Case) vkit.Result {
 		decisions = append(decisions, d)
 		return d
 	}
-	var dA, dPerm, dDup, dNF, dStrip, dB, dA2 c11Decision
+	var dA, dPerm, dDup, dNF, dStrip, dB, dA2, dGrown c11Decision
+	grow := c.GrowAt > 0 && c.GrowAt < len(c.A.Spans)
 	// all inside one bubble so that no dynsampler tick (real time) can interfere and
 	// the dynsampler goroutines are gone when the case ends
 	synctest.Test(c11T, func(t *testing.T) {
@@ -565,6 +579,15 @@ func execC11(c c11Case) vkit.Result {
 		dStrip = get("strip", stripped)
 		dB = get("b", c.B)
 		dA2 = get("a", c.A)
+		if grow {
+			// one trace object: keyed with its first GrowAt spans, then the rest arrive, keyed again
+			tr := &types.Trace{TraceID: "c11-grown"}
+			c811Extend(tr, c.A, 0, c.GrowAt)
+			decisions = append(decisions, c11Decide(s, tr))
+			c811Extend(tr, c.A, c.GrowAt, len(c.A.Spans))
+			dGrown = c11Decide(s, tr)
+			decisions = append(decisions, dGrown)
+		}
 		stop()
 		synctest.Wait()
 	})
@@ -586,6 +609,15 @@ func execC11(c c11Case) vkit.Result {
 	}
 	if dA.key != dA2.key {
 		res.Violate(sig("key/not-repeatable"), "same trace, same sampler: %q then %q; %s", dA.key, dA2.key, ctx())
+	}
+	if grow {
+		res.Class("grown")
+		if dGrown.panic == "" && dGrown.key != dA.key {
+			res.Violate(sig("key/depends-on-earlier-look"), "trace keyed with its first %d spans, then completed and keyed again: %q; the same spans assembled freshly: %q; %s", c.GrowAt, dGrown.key, dA.key, ctx())
+		}
+	}
+	if c.A.annotations() > 0 {
+		res.Class("has-span-event-or-link")
 	}
 	if dPerm.key != dA.key {
 		res.Violate(sig("key/permutation"), "key %q, after permuting spans %q; %s permuted=%s", dA.key, dPerm.key, ctx(), perm)
@@ -776,7 +808,7 @@ func TestC11(t *testing.T) {
 	c11T = t
 	vkit.Run(t, vkit.Spec[c11Case]{
 		ID:   "C11",
-		Rule: "rapid-generated (sampler kind of the five dynsampler-backed samplers, FieldList over {f1,f2,f3,root.f1,root.r,root.f2}, UseTraceLength, trace A of 1-8 spans (1 in 25: 75-99 distinct values) with typed values string/int64/float64/bool/nil incl. look-alikes and delimiter-bearing strings, trace B = edited A or independent, permutation seed, duplication list). The real sampler (built by sample.SamplerFactory) returns the key for A, permuted A, duplicated+permuted A, the distinct-value-sets normal form of A, A without unconfigured fields, B, A again; keys are compared with each other, never with a re-computed string. about 1 in 16 cases additionally run the keep-frequency sub-check (8000 decisions per trace after one adjustment interval of virtual time). Non-trivial: >=2 configured fields, >=3 spans, >=2 distinct values. Distinct = distinct case JSON.",
+		Rule: "rapid-generated (sampler kind of the five dynsampler-backed samplers, FieldList over {f1,f2,f3,root.f1,root.r,root.f2}, UseTraceLength, trace A of 1-8 spans (1 in 25: 75-99 distinct values) with typed values string/int64/float64/bool/nil incl. look-alikes and delimiter-bearing strings, trace B = edited A or independent, permutation seed, duplication list, growth point); 1 span in 5 is a span event or span link (meta.annotation_type). The real sampler (built by sample.SamplerFactory) returns the key for A, permuted A, duplicated+permuted A, the distinct-value-sets normal form of A, A without unconfigured fields (which also turns span events/links into plain spans), B, A again, and for A assembled incrementally on one trace object with a key call in between; keys are compared with each other, never with a re-computed string. about 1 in 16 cases additionally run the keep-frequency sub-check (8000 decisions per trace after one adjustment interval of virtual time). Non-trivial: >=2 configured fields, >=3 spans, >=2 distinct values. Distinct = distinct case JSON.",
 		Assumptions: []string{
 			"'distinct values' are compared as Go type + value for the equal-key direction (a weaker, therefore sound, premise than equality of rendered text)",
 			"for the different-key direction two values count as different only if they differ under any reasonable text rendering (same type and unequal, or different types that are not look-alikes such as \"1\"/1/1.0, \"true\"/true, \"<nil>\"/nil)",
